@@ -29,6 +29,12 @@ def run(ctx):
     model = build_model()
     impl = build_impl()
     setup_builtin(impl)
+    # hypothesis bi_b0_ok of C13_extension_commutes, evaluated on the real built-in definitions
+    b0ok = run_family(model, "sb_b0_ok", ["-"])[0]
+    ctx.cov["bi_b0_ok_on_real_builtins"] = b0ok == "b0_ok"
+    if b0ok != "b0_ok":
+        ctx.violation({"what": "the built-in definitions of SchemaBuilder::new() no longer satisfy bi_b0_ok: the hypothesis of "
+                               "C13_extension_commutes does not hold for the real initial state", "observed": b0ok}, no_input=True)
     n = 600 if ctx.tier == "quick" else 15000
     raw = []
     for name, text in corpus_texts("C13"):
@@ -70,7 +76,14 @@ def run(ctx):
             out += "\n=== with one extension moved ===\n" + unhexs(f[2 + k])
         return out
 
-    rows = ctx.correspond(impl, model, "c13_three", lines, describe=desc, nontrivial=lambda c, o: True)
+    rows = ctx.correspond(impl, model, "c13_three", lines, describe=desc, nontrivial=lambda c, o: True,
+                          compare=lambda i, m: i == re.sub(r"^docok=\d ", "", m))
+    bad_docs = [(c, i, m) for c, i, m in rows if m.startswith("docok=0")]
+    ctx.cov["bi_doc_ok_false"] = len(bad_docs)
+    for c, i, m in bad_docs[:2]:
+        ctx.violation({"family": "c13_three", "case": c, "case_readable": desc(c), "impl": i, "model": m,
+                       "what": "the parser produced a schema definition without root operations: hypothesis bi_doc_ok of "
+                               "C13_extension_commutes does not hold for this input"})
     fam = ctx.cov["families"]["c13_three"]
     fam["with_moved_extension"] = sum(1 for _, _, _, m in meta if m)
     fam["several_sources"] = sum(1 for _, _, ch, _ in meta if len(ch) > 1)
